@@ -42,7 +42,7 @@ ASSUMPTIONS = [
 VALUE_KINDS = ["replace_string", "map_string", "set_value", "case", "convert_type", "regex",
                "value_placeholders", "wildcard_placeholders", "query_expression_placeholders", "hashes_fields"]
 FIELD_KINDS = ["field_name_mapping", "field_name_mapping_1n", "field_name_prefix", "field_name_suffix",
-               "field_name_prefix_mapping"]
+               "field_name_prefix_mapping", "field_name_mapping_all_same"]
 OTHER_KINDS = ["add_condition", "drop_detection_item", "change_logsource", "set_field", "add_field",
                "remove_field", "set_state", "set_custom_attribute", "nest", "sim_fail_at"]
 
